@@ -356,23 +356,31 @@ class SuiteRun:
         return corr, prop
 
 
-def shrink_case(suite, case, still_fails, fixed_tokens=2, budget=150):
-    """Greedy token removal (delta debugging, one token at a time) on a failing case."""
+def shrink_case(suite, case, still_fails, fixed_tokens=2, budget=150, seconds=None):
+    """Delta debugging on the tokens of a failing case: chunks of decreasing size, then single
+    tokens; bounded by a number of runs and by wall-clock time (VERIF_SHRINK_SECS, default 150)."""
+    import time
+    if seconds is None:
+        seconds = int(os.environ.get("VERIF_SHRINK_SECS", "150"))
+    deadline = time.time() + seconds
     toks = case.split(" ")
     head, body = toks[:fixed_tokens], toks[fixed_tokens:]
-    changed = True
     runs = 0
-    while changed and runs < budget:
-        changed = False
+    chunk = max(1, len(body) // 2)
+    while chunk >= 1 and runs < budget and time.time() < deadline:
         i = 0
-        while i < len(body) and runs < budget:
-            cand = body[:i] + body[i + 1:]
+        removed = False
+        while i < len(body) and runs < budget and time.time() < deadline:
+            cand = body[:i] + body[i + chunk:]
             runs += 1
             if cand and still_fails(" ".join(head + cand)):
                 body = cand
-                changed = True
+                removed = True
             else:
-                i += 1
+                i += chunk
+        if chunk == 1 and not removed:
+            break
+        chunk = chunk // 2 if chunk > 1 else (1 if removed else 0)
     return " ".join(head + body)
 
 
